@@ -1,0 +1,80 @@
+/**
+ * @file verif_hook.h
+ * @brief Observation / scheduling points for the verification harness.
+ * @details Everything here is inert unless the translation unit is compiled
+ * with -DPROJECT_TSURUGI_YAKUSHIMA_VERIF *and* a harness installs a hook
+ * function at run time.  Without the define every macro expands to nothing.
+ */
+#pragma once
+
+#ifdef PROJECT_TSURUGI_YAKUSHIMA_VERIF
+
+#include <cstddef>
+#include <cstdint>
+
+namespace yakushima::verif {
+
+enum kind : int {
+    k_load = 1,     // generic atomic load (before the load); a = size
+    k_store,        // generic store (after the store); a = size
+    k_cas,          // generic compare-exchange (before the attempt)
+    k_ver_load,     // node_version64::get_body (before)
+    k_ver_cas,      // successful CAS on a version word (after); a: 1 lock, 2 unlock, 3 flag, 4 inc_vinsert
+    k_ver_store,    // node_version64::set_body (after)
+    k_spin,         // about to retry a wait loop on obj (lock held / dirty version / root lock held)
+    k_perm_load,    // permutation word load (before)
+    k_perm_store,   // permutation word store (after)
+    k_key_load,     // key slice / key length array read (before)
+    k_bulk_store,   // memmove of key / lv / children arrays (after)
+    k_root_lock,    // tree_instance root lock acquired (after)
+    k_root_unlock,  // tree_instance root lock released (after)
+    k_run_load,     // thread_info::running_ load (before)
+    k_run_cas,      // thread_info::running_ CAS succeeded (after)
+    k_run_store,    // thread_info::running_ store (after)
+    k_begin_load,   // thread_info::begin_epoch_ load (before)
+    k_begin_store,  // thread_info::begin_epoch_ store (after); a = epoch
+    k_epoch_load,   // global epoch load (before)
+    k_epoch_inc,    // global epoch incremented (after)
+    k_gc_load,      // gc epoch load (before)
+    k_gc_store,     // gc epoch store (after); a = epoch
+    k_stop_load,    // background thread stop flag load (before); a: 1 epoch thread, 2 gc thread
+    k_stop_store,   // background thread stop flag store (after)
+    k_retire_node,  // node pushed to a retire queue (after); a = tag epoch
+    k_retire_value, // value pushed to a retire queue (after); a = tag epoch
+    k_reclaim_node, // node about to be deleted by gc / fin (before)
+    k_reclaim_value,// value about to be deleted by gc / fin (before)
+    k_thread_start, // background thread body entered; a: 1 epoch thread, 2 gc thread
+    k_thread_exit,  // background thread body about to return
+    k_sleep,        // sleepMs called; a = ms
+};
+
+using hook_fn = void (*)(int, const void*, std::uint64_t, std::uint64_t);
+using sleep_fn = bool (*)(std::size_t);
+
+inline hook_fn g_hook = nullptr;   // NOLINT
+inline sleep_fn g_sleep = nullptr; // NOLINT
+
+inline void point(int k, const void* o, std::uint64_t a, std::uint64_t b) {
+    if (auto f = g_hook) { f(k, o, a, b); }
+}
+
+// returns true when the harness wants the real sleep to be skipped
+inline bool on_sleep(std::size_t ms) {
+    if (auto f = g_sleep) { return f(ms); }
+    return false;
+}
+
+} // namespace yakushima::verif
+
+#define YK_VP(k, o, a, b)                                                      \
+    ::yakushima::verif::point(::yakushima::verif::k, (o),                      \
+                              (std::uint64_t)(a), (std::uint64_t)(b)) // NOLINT
+#define YK_VP_SLEEP(ms)                                                        \
+    if (::yakushima::verif::on_sleep(ms)) { return; } // NOLINT
+
+#else
+
+#define YK_VP(k, o, a, b)
+#define YK_VP_SLEEP(ms)
+
+#endif
